@@ -2,7 +2,7 @@
    scale-equivariant.  Scales are carried as SQUARES in the model. *)
 From Coq Require Import List Arith.
 From PD Require Import Base.Field Base.Matrix Base.Solve Model.Gauss Model.Poly Model.Prior Model.Solver
-  Spec.RTS Proofs.CalibProofs.
+  Spec.RTS Proofs.CalibProofs Proofs.CalibFrame.
 Import ListNotations.
 
 Section C04.
@@ -49,6 +49,21 @@ Section C04.
       whitened_rms2 minv n cc (mkN (n_mean rv) (mscale n n c (n_cov rv))) u = Some x' ->
       x' = fdiv x c.
   Proof. exact whitened_rms2_scale. Qed.
+
+  (* MLE calibration does not touch the posterior DURING the run: on every fixed
+     grid the states of the MLE-calibrating solver carry the same time, marginal,
+     posterior (incl. backward model), step counter and cached linearisation as
+     those of the uncalibrated solver (any factorisation, strategy, linearisation,
+     any inverse oracle); the calibrated scale enters only through the final
+     rescaling (C04_mle_final_scale_formula) *)
+  Theorem C04_mle_run_is_the_unit_scale_run :
+    forall (inv : nat -> @mat F -> option (@mat F)) (cf : @config F) (corr : bool) (dts : list F)
+           (stM stN : @sstate F),
+      st_t stM = st_t stN -> st_post stM = st_post stN -> st_nsteps stM = st_nsteps stN ->
+      forall lM, fixed_grid_states inv (cfg_with cf (CalMLE corr)) stM dts = Some lM ->
+      exists lN, fixed_grid_states inv (cfg_with cf CalNone) stN dts = Some lN /\
+                 Forall2 same_posterior lM lN.
+  Proof. intros inv cf corr dts. exact (mle_grid_same_posteriors inv cf corr dts). Qed.
 End C04.
 
 Print Assumptions C04_running_rms_is_rms.
@@ -56,3 +71,4 @@ Print Assumptions C04_mle_final_scale_formula.
 Print Assumptions C04_prediction_scale_equivariant.
 Print Assumptions C04_update_scale_equivariant.
 Print Assumptions C04_whitened_rms_scale.
+Print Assumptions C04_mle_run_is_the_unit_scale_run.
